@@ -26,6 +26,8 @@ type sharedSlices struct {
 	// what is shared at some point of a function: the entry facts of the literals it contains (a captured
 	// variable that shares a backing array somewhere in the parent may share it when the literal runs)
 	anywhere map[*Fn]Facts
+	// ext: calls outside the tree whose slice result is the callee's own storage (a datastore's Get)
+	ext func(*types.Func) bool
 }
 
 func newSharedSlices(p *Prog) *sharedSlices {
@@ -68,6 +70,13 @@ func newSharedSlices(p *Prog) *sharedSlices {
 // getterCall: call of a first-party method (concrete or through a first-party interface) named like a getter.
 func (ss *sharedSlices) getterCall(fn *Fn, call *ast.CallExpr) bool {
 	cf := ss.p.Callee(fn, call)
+	if cf != nil && ss.ext != nil && ss.ext(cf) {
+		if sig, ok := cf.Type().(*types.Signature); ok && sig.Results().Len() >= 1 {
+			if _, isSlice := sig.Results().At(0).Type().Underlying().(*types.Slice); isSlice {
+				return true
+			}
+		}
+	}
 	if cf == nil || !ss.getters[cf.Name()] || !ss.p.firstParty(cf.Pkg()) {
 		return false
 	}
@@ -177,9 +186,16 @@ func (ss *sharedSlices) writes(fn *Fn, entry Facts, depth int) []sharedWrite {
 					}
 				}
 			} else {
-				for _, lh := range x.Lhs {
+				for i, lh := range x.Lhs {
 					if p.TypeOf(fn, lh) != nil {
-						assign(lh, false, f)
+						// v, err := store.Get(key): the first result is the slice
+						sh := false
+						if i == 0 && len(x.Rhs) == 1 {
+							if call, ok := ast.Unparen(x.Rhs[0]).(*ast.CallExpr); ok {
+								sh = ss.getterCall(fn, call)
+							}
+						}
+						assign(lh, sh, f)
 					}
 				}
 			}
@@ -305,14 +321,21 @@ func (ss *sharedSlices) helperWrites(callee *Fn, param int, depth int) bool {
 
 // sharedSlicesReadOnly: the rule over every first-party function.
 func sharedSlicesReadOnly(c *Ctx, r *Report, rule string) {
+	sharedSlicesReadOnlyIn(c, r, rule, nil, nil, 4, 20)
+}
+
+// sharedSlicesReadOnlyIn: the same rule with, in addition, slices obtained from calls outside the tree that hand
+// out their own storage (ext), over the functions scope selects.
+func sharedSlicesReadOnlyIn(c *Ctx, r *Report, rule string, ext func(*types.Func) bool, scope func(*Fn) bool, floorGetters, floorCalls int) {
 	p := c.P
 	ss := newSharedSlices(p)
+	ss.ext = ext
 	r.Tables["getters_handing_out_internal_slices"] = ss.table
-	r.Floor(rule, "getters that hand out an internal slice", len(ss.table), 4)
+	r.Floor(rule, "getters that hand out an internal slice", len(ss.table), floorGetters)
 	ncall := 0
 	// parents before the literals they contain (p.Fns lists a declaration before its literals)
 	for _, fn := range p.Fns {
-		if fn.Orig != nil || fn.Body == nil || strings.HasSuffix(fn.Pkg.PkgPath, "/test") {
+		if fn.Orig != nil || fn.Body == nil || strings.HasSuffix(fn.Pkg.PkgPath, "/test") || (scope != nil && !scope(fn)) {
 			continue
 		}
 		n := 0
@@ -341,5 +364,5 @@ func sharedSlicesReadOnly(c *Ctx, r *Report, rule string) {
 				fmt.Sprintf("`%s` shares its backing array with the object whose getter handed it out, and %s: the object (a head set, an entry's link list, a payload) changes behind its lock and for every log that holds it", w.Expr, w.What))
 		}
 	}
-	r.Floor(rule, "calls of slice getters examined", ncall, 20)
+	r.Floor(rule, "calls of slice getters examined", ncall, floorCalls)
 }
